@@ -9,7 +9,7 @@ from typing import Any, Dict, Optional
 
 from .parser import Parser
 from .compiler import Compiler
-from .vm import VM
+from .vm import VM, Clock
 from .values import (
     UNDEFINED,
     NULL,
@@ -108,6 +108,7 @@ class Context:
         self.time_limit = time_limit
         self._globals: Dict[str, JSValue] = {}
         self._current_vm = None  # Set during eval() for timeout checking
+        self._clock = Clock()  # deadline clock of the evaluation in progress
         self._setup_globals()
 
     def _setup_globals(self) -> None:
@@ -1245,8 +1246,8 @@ class Context:
         """Run eval()/Function() code on its own VM, as part of the evaluation in progress:
         same deadline, and one level deeper on the host stack."""
         parent = self._current_vm
+        vm.clock = self._clock
         if parent is not None:
-            vm.start_time = parent.start_time
             vm.native_depth_offset = parent.native_depth() + 1
             vm.check_native_depth()
         self._current_vm = vm
@@ -1304,6 +1305,9 @@ class Context:
 
         # Execute
         vm = VM(memory_limit=self.memory_limit, time_limit=self.time_limit)
+        vm.clock = self._clock
+        if self._current_vm is None:
+            self._clock.start_time = None  # a new evaluation: the deadline starts over
 
         # Share globals with VM (don't copy - allows nested eval to modify globals)
         vm.globals = self._globals
@@ -1327,6 +1331,9 @@ class Context:
         This is used internally to invoke JSFunction objects from Python code.
         """
         vm = VM(memory_limit=self.memory_limit, time_limit=self.time_limit)
+        vm.clock = self._clock
+        if self._current_vm is None:
+            self._clock.start_time = None
         vm.globals.update(self._globals)
         result = vm._call_callback(func, args, UNDEFINED)
         self._globals.update(vm.globals)
